@@ -185,6 +185,9 @@ def gen_cases(tier, seed):
     nm = 64 if tier == "quick" else 800
     for i in range(nm):
         cases.append({"kind": "mut", "seed": [int(seed), 4, i], "count": 3})
+    # (2b) every parameter of every element class: value / lower / upper written or omitted, numbers on, between and beyond the class defaults
+    for sym in sorted(G.catalogue()):
+        cases.append({"kind": "paramforms", "sym": sym})
     # (3) depth probes
     cases.append({"kind": "depth"})
     # (4) cli wrapper sample
@@ -220,6 +223,26 @@ def run_case(case):
         for s in case["strings"]:
             classify(s, viol, st)
         return {"evals": len(case["strings"]), "keys": case["strings"], "viol": viol, "stats": st}
+    if k == "paramforms":
+        import math
+
+        info = G.catalogue()[case["sym"]]
+        strings = []
+        for key, (dv, dl, du, fx) in info["params"].items():
+            nums = {dv, dl, du, dl - 1.0, du * 2.0, du * 10.0, dv * 0.5, 0.0, -dv}
+            nums = sorted(x for x in nums if isinstance(x, float) and math.isfinite(x))
+            txt = [repr(x) for x in nums]
+            for v in txt:
+                for lo in [None] + txt + ["50%", "-inf"]:
+                    for hi in [None] + txt + ["150%", "inf"]:
+                        body = v + ("" if lo is None and hi is None else "/" + (lo or "") + ("" if hi is None else "/" + hi))
+                        strings.append(f"{case['sym']}{{{key}={body}}}")
+                        if lo is not None and hi is None:
+                            strings.append(f"R{case['sym']}{{{key}={v}F/{lo}:x}}")
+        evals = _run_strings(strings, viol, st, nontriv)
+        st["paramform_strings"] = evals
+        return {"evals": evals, "disjoint": nontriv[0], "viol": viol[:20], "stats": st,
+                "sample": {"block": f"parameter forms of {case['sym']}", "strings": evals, "example": strings[len(strings) // 2] if strings else None}}
     if k == "lex":
         first = LEX[case["first"]]
         gens = [[first]] if True else []
